@@ -299,17 +299,12 @@ Section Readers.
       | None =>
           match split_exp body with
           | Some (m, e) =>
-              (* -?(\d+)[Ee]([+-]?\d+) with an integral significand: sig * 10**exp, exact *)
+              (* -?(\d+)[Ee]([+-]?\d+): since the repair of F-03c/F-19c the reader returns float(s) *)
               let ed := match e with c :: t => if (c =? 43) || (c =? 45) then t else e | [] => e end in
               if negb (forallb is_digit m) || negb (forallb is_digit ed)
                  || (match m with [] => true | _ => false end) || (match ed with [] => true | _ => false end)
               then RErr 7
-              else if starts_with 45 e then RErr 7                               (* 10**-n is a float *)
-              else match py_int m, py_int ed with
-                   | Some sig, Some ex =>
-                       let r := (sig * 10 ^ ex)%Z in ROk (EInt (if is_neg s then - r else r)%Z, rest)
-                   | _, _ => RErr 7
-                   end
+              else match py_float s with Some tok => ROk (EFloat tok, rest) | None => RErr 2 end
           | None => if forallb (fun c => is_digit c || (c =? 45)) s && negb (starts_with 48 body)
                     then RErr 1 else RErr 7          (* 0-prefixed: octal *)
           end
